@@ -78,6 +78,17 @@ inline void add_coordinates(Spec& s, const std::vector<std::string>& ids, bool x
   s.cl.push_back(c);
 }
 
+// a <coordinates> cluster with a different set of observed components per point (mode 1 xy, 2 z, 3 xyz)
+inline void add_coordinates_mixed(Spec& s, const std::vector<std::pair<std::string,int>>& pts, qla::Rng& rng, bool correlated) {
+  Cluster c; c.kind = Cluster::COORD;
+  for (auto& pr : pts) { const Pt* p = s.pt(pr.first); Obs o; o.to = pr.first; o.from = "";
+    if (pr.second & 1) { o.t = CX; o.val = p->x; c.obs.push_back(o); o.t = CY; o.val = p->y; c.obs.push_back(o); }
+    if (pr.second & 2) { o.t = CZ; o.val = p->z; c.obs.push_back(o); } }
+  int n = (int)c.obs.size(); c.L = QMat(n, n); c.has_cov = true; c.band = correlated ? std::min(n - 1, 2) : 0;
+  for (int i = 0; i < n; i++) { c.L(i, i) = rng.range(1, 3); if (correlated) for (int j = std::max(0, i - 2); j < i; j++) c.L(i, j) = Q(rng.range(-1, 1), 2); }
+  s.cl.push_back(c);
+}
+
 // ---- bridge: observation objects of the parsed network -> oracle rows ------------------------------
 struct Bridge {
   Net* net; const Spec* spec;
